@@ -114,6 +114,15 @@ add("C02", "pipe", "fault_enumeration",
     "Faults are injected at generator-visible points only; no faults inside gengo's own write loop, no disk-full/EIO.",
     "DESIGN.md section 3, C02")
 
+add("C13", "univ", "exploration",
+    "property-based testing (rapid) and a corpus sweep: differential of every Package accessor against go/types on generated modules and on /repo's whole dependency closure",
+    "Generated modules (local types/consts reusing package-level names, shadowing type parameters, generic receivers, grouped declarations, init/blank functions, "
+    "named/blank imports, a replaced sibling module) are loaded with types.Load and every package of the closure is compared with go/types: table keys and object "
+    "identity against Pkg().Scope(), MethodsOf against Named.Method(i), Imports() against Package.Imports and Universe.Package, SourceDir/LocateInPackage against the file "
+    "directories. The same comparison sweeps all ~195 packages of /repo's own closure (std included).",
+    "go/types is the reference; blank-named entries and init are ignored, interfaces skipped for MethodsOf.",
+    "DESIGN.md section 3, C13")
+
 ALL = ["C%02d" % i for i in range(1, 21)]
 
 def main():
